@@ -37,7 +37,7 @@ def a_publishViaRename(T):
     if not isinstance(target, ast.Name): raise NotFound('temporary is not a local name')
     moves = [n for n in ast.walk(f) if isinstance(n, ast.Call) and ast.unparse(n.func) in ('os.replace', 'os.rename')
              and len(n.args) == 2 and ast.unparse(n.args[0]) == target.id and ast.unparse(n.args[1]) == 'fname']
-    if not moves: return 'false'
+    if not moves: raise NotFound('no os.replace/os.rename of the temporary onto fname in sight (moved into a helper?)')
     # the move must come after the with block (the file is closed by then), not inside it
     inside = {id(n) for n in ast.walk(w)}
     if any(id(m) in inside for m in moves): return 'false'
